@@ -578,6 +578,65 @@ def check_lzma2_flags(ck, prog):
           key="LZMA2:uncompressed-needs-reset")
 
 
+def check_outpos(ck, prog):
+    """The range encoder's byte emitters (real and dummy) advance *out_pos one byte at a time, each step behind the
+    test `*out_pos == out_size`: the dummy must stop exactly where the real one would, otherwise the size prediction
+    used for out_limit (LZMA2 chunk size, MicroLZMA) disagrees with what is emitted."""
+    from sa import avail
+    from . import C04
+    ck.rule("C01-OUTPOS", "rc_shift_low / rc_shift_low_dummy advance *out_pos by single steps, each dominated by "
+                          "`*out_pos == out_size` -> stop on every path")
+    n = 0
+    for fname in ("rc_shift_low", "rc_shift_low_dummy"):
+        fs = [f for f in prog.functions.get(fname, []) if f.blocks]
+        if not fs:
+            raise AnalysisBroken("%s vanished" % fname)
+        f = fs[0]
+        ck.saw_function(f)
+        g = C04.graph_of(prog, f)
+        t = avail.Triple("$none", "out_pos", "out_size", True)
+        nonunit = []
+
+        def uses(tt, e):
+            r = []
+            if e is None:
+                return r
+            for x in ex.walk(e, into_refs=False):
+                if x.get("k") == "un" and x["op"] in ("pre++", "post++") and tt.is_pos(x["e"]):
+                    r.append(x)
+            return r
+        for b, i, e in f.iter_elems():
+            for (l, r, op, node) in ex.writes(e):
+                if t.is_pos(l) and not (ex.deref(node).get("k") == "un"):
+                    # a block advance is fine behind a comparison of the amount with the space left
+                    doms_ = cfg.dominators(f).get(b.id, ())
+                    amt = ex.show(r) if r is not None else "?"
+                    guarded = any(f.blocks[d].term and "cond" in f.blocks[d].term and
+                                  "out_size" in ex.show(f.blocks[d].term["cond"]) and
+                                  amt in ex.show(f.blocks[d].term["cond"]) for d in doms_ if d != b.id)
+                    if not guarded:
+                        nonunit.append(node)
+        orig = avail.elem_uses
+        avail.elem_uses = uses
+        try:
+            bad, nuses = avail.solve(g, t)
+        finally:
+            avail.elem_uses = orig
+        n += nuses
+        okk = not bad and not nonunit and nuses > 0
+        w = nonunit[0] if nonunit else (bad[0][2] if bad else None)
+        ck.ob("C01-OUTPOS", fname, okk, common.where(f, w),
+              "%s: %d single-step advance(s) of *out_pos, each with *out_pos < out_size established" % (fname, nuses)
+              if okk else
+              ("%s(): `%s` moves *out_pos by more than one byte without comparing against out_size: the position can pass "
+               "out_size, so the %s stops at a different point than its sibling" % (
+                   fname, ex.show(w)[:60], "dummy" if "dummy" in fname else "encoder") if nonunit else
+               "%s(): *out_pos is advanced on a path where `*out_pos == out_size` has not been tested since the last advance"
+               % fname) if (nonunit or bad) else "%s(): no advance of *out_pos found" % fname,
+              key="OUTPOS:" + fname)
+    return n
+
+
 def check_order(ck, prog):
     """Two ordering obligations of the LZMA encoders."""
     ck.rule("C01-ORDER", "position bookkeeping is committed before the encoder can suspend; the history reserve for "
@@ -652,5 +711,6 @@ def run(ck):
     check_tab(ck, prog)
     check_lzma2_flags(ck, prog)
     check_order(ck, prog)
+    check_outpos(ck, prog)
     from . import C03
     C03.check_dict_siblings(ck, common.program(ck, ("liblzma",), files=("/lz/lz_decoder.c", "/lzma/lzma_decoder.c")))
